@@ -102,10 +102,33 @@ def apply_event(state_dir, srcs, opts, ev):
     return srcs, opts
 
 
+WS = "/var/tmp/vmc-c09-ws"  # every invocation sees its state directory at this one path (private mount namespace)
+_NS = []
+
+
+def namespaces_work():
+    """can a child process bind-mount in a private mount namespace? (needs root / CAP_SYS_ADMIN)"""
+    if not _NS:
+        os.makedirs(WS, exist_ok=True)
+        probe = Path(WS + "-probe")
+        probe.mkdir(exist_ok=True)
+        (probe / "x").write_text("1")
+        r = subprocess.run(["unshare", "-m", "sh", "-c", f"mount --bind {probe} {WS} && test -f {WS}/x"], capture_output=True)
+        shutil.rmtree(probe, ignore_errors=True)
+        _NS.append(r.returncode == 0 and os.environ.get("VERIF_C09_NO_NAMESPACE") != "1")
+    return _NS[0]
+
+
 def invoke(state_dir, srcs, opts, fault=None):
+    """One real `nanoemoji` invocation on the snapshot. The resolved TOML, the glyph map and build.ninja hold absolute
+    paths; a snapshot copied to a new directory would therefore look 'changed' to every step, which hides exactly the
+    staleness the property is about. So the snapshot is bind-mounted at one fixed path inside a private mount
+    namespace and the command runs there: along a history, nothing changes but what the events change."""
     from vmc.drive import cli
 
-    files = [str(state_dir / "src" / FILES[k]) for k in sorted(srcs)]
+    ns = namespaces_work()
+    seen_dir = Path(WS) if ns else state_dir
+    files = [str(seen_dir / "src" / FILES[k]) for k in sorted(srcs)]
     extra = {}
     marker = state_dir / "fault"
     if fault:
@@ -116,7 +139,12 @@ def invoke(state_dir, srcs, opts, fault=None):
     if fault:
         env["PATH"] = FAULT_BIN + ":" + env["PATH"]
     try:
-        r = subprocess.run(["nanoemoji"] + flags(opts) + files, cwd=str(state_dir), env=env, capture_output=True, text=True, timeout=600, start_new_session=True)
+        cmd = ["nanoemoji"] + flags(opts) + files
+        if ns:
+            import shlex
+
+            cmd = ["unshare", "-m", "sh", "-c", f"mount --bind {shlex.quote(str(state_dir))} {WS} && cd {WS} && exec " + " ".join(shlex.quote(c) for c in cmd)]
+        r = subprocess.run(cmd, cwd=str(state_dir), env=env, capture_output=True, text=True, timeout=600, start_new_session=True)
         rc, err = r.returncode, (r.stderr or "")[-300:]
     except subprocess.TimeoutExpired:
         rc, err = 124, "timeout"
@@ -342,6 +370,7 @@ def run(report, tier, only=None):
         report.extra["distinct_state_keys"] = len(keys)
         report.extra["faulted_invocations"] = n_faults
         report.extra["history_depth"] = depth
+        report.extra["fixed_workspace_path"] = namespaces_work()
         report.extra["fault_depth"] = fault_depth
         report.sample({"kind": "history", "history": [{"event": ["modify", "A"], "fault": ["write_font", "truncate-kill"]}]})
         report.sample({"kind": "history", "history": [{"event": ["add", "C"], "fault": None}, {"event": ["rename", "A", "B"], "fault": None}]})
